@@ -23,7 +23,7 @@ CLAUSES = [
      "group, non-negative deltas and per track well-formed rounded note events of positive length, the sounding set of loaded sequence g is exactly the "
      "union over the group's tracks of their note events at the rounded exact positions; every signature on the meta target is the default 4/4 or comes "
      "from a considered track at its rounded position; the other sequences carry no signature (zero-length notes after rescaling: known finding D17, outside GoodTrack)",
-     ["SCoda.C13.load_sounding", "SCoda.C13.trackMsgs_sorted", "SCoda.C13.load_signatures", "SCoda.C13.signatures_only_on_target", "SCoda.C13.exTrack_msgs"]),
+     ["SCoda.C13.load_sounding", "SCoda.C13.trackMsgs_sorted", "SCoda.C13.load_signatures", "SCoda.C13.signatures_only_on_target"]),
 ]
 RULE = ("MIDI files written with mido: resolutions from {1,7,24,48,96,100,480,960,997,32767}, 1-4 tracks, long delta "
         "patterns (drift), note-on velocity 0 as note-off, all groupings, meta selections and target indices, all 30 key names; "
